@@ -115,10 +115,14 @@ Print Assumptions C16_later_writes_independent.
    [T2] copy_value -- the value a deep copy denotes.
    Scope (stated in the theorems): cross-message copy (source in the read-only message of [world])
    into a SINGLE-SEGMENT destination ([dstw D cap src rl]: every allocation appends to segment 0, every
-   pointer is placed near); source values in [cvdom]: structs of any section sizes, nulls and data-only
-   lists (void, 1/2/4/8-byte, bit lists), nested to any depth.  NOT covered: multi-segment destinations
-   (far / double-far placement), pointer lists, struct lists, capabilities, list-member structs of
-   1/2/4-byte lists.
+   pointer is placed near); source values in [cvdom]: every capability-free value -- structs of any section
+   sizes, nulls, void / 1,2,4,8-byte / bit lists, pointer lists and struct lists, nested to any depth.
+   Source pointers are as the reader hands them out: well formed (wf_ptr), word-aligned struct data
+   (aligned, caligned), composite lists behind a consistent tag word (ctag_ok) -- all three are theorems
+   about Segment.readPtr (readPtr_aligned, readPtr_caligned, readPtr_ctag).
+   NOT covered: multi-segment destinations (far / double-far placement), capabilities (the single-segment
+   view [dstw] has no capability table), list-member structs of 1/2/4-byte lists (never produced by a
+   whole-pointer copy).
    ==================================================================================================== *)
 From CV Require Import Value.ValueEq Value.EqualM Value.Den Value.CanonMHeap Value.CanonMLoop Value.CanonMInd
                        Value.CopyValue Value.CopyValueHeap Value.CopyValueInd Value.CopyValueEq Value.CanonSpec Value.EqualCorrect.
@@ -128,7 +132,7 @@ From CV Require Import Core.SafetyProofs.
    (Segment.readPtr, strict) as a pointer denoting exactly the source's value *)
 Theorem C16_copy_value_ptr : forall m f D cap rl a src v fc w',
   msg_ok m -> CanonMLoop.hinv D -> 0 <= a -> a mod 8 = 0 -> a + 8 <= zlen D ->
-  wf_ptr m src -> aligned src -> caligned src -> den true m 0 [] src v -> cvdom v = true ->
+  wf_ptr m src -> aligned src -> caligned src -> ctag_ok m src -> den true m 0 [] src v -> cvdom v = true ->
   write_ptr f true (dstw D cap m rl) 0 a InSrc src fc = Ok w' ->
   exists D' cap' rl', w' = dstw D' cap' m rl' /\ CanonMLoop.hinv D' /\ reads_as D' a v.
 Proof. exact copy_value_ptr. Qed.
@@ -165,7 +169,7 @@ Print Assumptions C16_resize_value_eq.
    destination segment consists of bytes -- is a hypothesis here *)
 Theorem C16_copy_then_equal : forall m f D cap rl a src v fc w' c fx,
   msg_ok m -> CanonMLoop.hinv D -> 0 <= a -> a mod 8 = 0 -> a + 8 <= zlen D ->
-  wf_ptr m src -> aligned src -> caligned src -> den true m 0 [] src v -> cvdom v = true ->
+  wf_ptr m src -> aligned src -> caligned src -> ctag_ok m src -> den true m 0 [] src v -> cvdom v = true ->
   write_ptr f true (dstw D cap m rl) 0 a InSrc src fc = Ok w' ->
   cfg_strict c = true -> all_fixed fx ->
   exists D' cap' rl' q, w' = dstw D' cap' m rl' /\
@@ -175,12 +179,18 @@ Theorem C16_copy_then_equal : forall m f D cap rl a src v fc w' c fx,
 Proof. exact copy_then_equal. Qed.
 Print Assumptions C16_copy_then_equal.
 
-(* non-vacuity: a concrete source (struct with a byte list, a bit list and a child struct) and a
+(* non-vacuity: a concrete source (struct with a byte list, a pointer list, a bit list and a struct list) and a
    fresh destination satisfy every hypothesis and the copy succeeds *)
 Theorem C16_copy_value_nonvacuous :
-  CanonMLoop.hinv (repeat 0 8%nat) /\ wf_ptr msg_cv root_cv /\ aligned root_cv /\ caligned root_cv /\ p_valid root_cv = true /\
+  CanonMLoop.hinv (repeat 0 8%nat) /\ wf_ptr msg_cv root_cv /\ aligned root_cv /\ caligned root_cv /\ ctag_ok msg_cv root_cv /\ p_valid root_cv = true /\
   exists v w', den true msg_cv 0 [] root_cv v /\ cvdom v = true /\
                write_ptr 20 true (dstw (repeat 0 8%nat) 1024 msg_cv 1000000) 0 0 InSrc root_cv false = Ok w'.
 Proof. exact copy_value_nonvacuous. Qed.
 Print Assumptions C16_copy_value_nonvacuous.
+
+(* the reader hands out pointers satisfying the side conditions above *)
+Theorem C16_readPtr_ctag : forall strict m rl sid s a dep q rl', msg_ok m -> is_seg m sid s -> 0 <= a -> a + 8 <= zlen s ->
+  readPtr strict m rl sid s a dep = (Ok q, rl') -> ctag_ok m q.
+Proof. exact readPtr_ctag. Qed.
+Print Assumptions C16_readPtr_ctag.
 (* ==================================================================================================== END block *)
